@@ -207,6 +207,26 @@ theorem commitMkdir_counter (k : Nat) (buffer : Node) (l : List Bytes) (r : Node
         exact ⟨by omega, fun h => by rcases this.2 h with h' | h' <;> omega⟩
     · exact ih r n
 
+theorem remoteStream_counter (k n : Nat) (src : Bytes) (chunks : List Bytes) (r : Node) :
+    n < (remoteStream (some k) n src chunks r).2
+    ∧ ((remoteStream (some k) n src chunks r).1.2 = .ok → k < n ∨ (remoteStream (some k) n src chunks r).2 ≤ k) := by
+  unfold remoteStream
+  by_cases h0 : k = n
+  · subst h0; simp
+  · have h0' : ¬ (some k = some n) := fun e => h0 (Option.some.inj e)
+    rw [if_neg h0']
+    rcases Root.writer r src [] with ⟨r', res⟩
+    cases res
+    case ok =>
+      simp only []
+      by_cases h1 : n < k ∧ k ≤ n + chunks.length
+      · rw [if_pos h1]; simp only []; exact ⟨by omega, fun h => absurd h (by simp)⟩
+      · rw [if_neg h1]
+        by_cases h2 : k = n + chunks.length + 1
+        · rw [if_pos h2]; simp only []; exact ⟨by omega, fun h => absurd h (by simp)⟩
+        · rw [if_neg h2]; simp only []; exact ⟨by omega, fun _ => by omega⟩
+    all_goals exact ⟨by simp, fun h => absurd h (by simp)⟩
+
 theorem commitWrite_counter (k : Nat) (buffer : Node) (l : List Bytes) (r : Node) (n : Nat) :
     n ≤ (commitWrite (some k) buffer l r n).2.1
     ∧ ((commitWrite (some k) buffer l r n).2.2 = true → k < n ∨ (commitWrite (some k) buffer l r n).2.1 ≤ k) := by
@@ -222,14 +242,16 @@ theorem commitWrite_counter (k : Nat) (buffer : Node) (l : List Bytes) (r : Node
       cases res <;> simp only [] <;> try (simp; done)
       split
       · rcases hrd : Root.readFile buffer src with _ | _ | _ | d | _ | _ | _ <;> simp only [] <;> try (simp; done)
-        by_cases hk2 : k = n + 1
-        · subst hk2; simp
-        · have hk2' : ¬ (some k = some (n + 1)) := fun e => hk2 (Option.some.inj e)
-          simp only [if_neg hk2']
-          rcases hw : Root.writer r1 src (ioChunks d) with ⟨r2, res2⟩
-          cases res2 <;> simp only [] <;> try (simp; done)
-          have := ih r2 (n + 2)
-          exact ⟨by omega, fun h => by rcases this.2 h with h' | h' <;> omega⟩
+        have hs := remoteStream_counter k (n + 1) src (ioChunks d) r1
+        rcases hw : remoteStream (some k) (n + 1) src (ioChunks d) r1 with ⟨⟨r2, res2⟩, n'⟩
+        rw [hw] at hs
+        simp only [] at hs
+        cases res2 <;> simp only [] <;> try (exact ⟨by omega, fun h => absurd h (by simp)⟩)
+        have := ih r2 n'
+        refine ⟨by omega, fun h => ?_⟩
+        rcases this.2 h with h' | h'
+        · rcases hs.2 rfl with h'' | h'' <;> omega
+        · exact Or.inr h'
       · have := ih r1 (n + 1)
         exact ⟨by omega, fun h => by rcases this.2 h with h' | h' <;> omega⟩
 
